@@ -125,32 +125,29 @@ pub fn laguerre_rsi<T: Scalar>(xs: &[T], n: usize) -> Vec<(Option<T>, T)> {
     out
 }
 
-/// CyberCycle(N): alpha = 2/(N+1); 0 until the window is full; Smooth over four consecutive
-/// window values (0 where the four do not fit into the window); two-pole recursion on the cycle
+/// CyberCycle(N): alpha = 2/(N+1).  Smooth = (P + 2 P[1] + 2 P[2] + P[3])/6,
+/// Cycle = (1-a/2)^2 (Smooth - 2 Smooth[1] + Smooth[2]) + 2(1-a) Cycle[1] - (1-a)^2 Cycle[2];
+/// the view keeps max(N, 6) prices (six are needed) and reports 0 until it has that many,
+/// starting the recursion from zero state then
 pub fn cyber_cycle<T: Scalar>(xs: &[T], n: usize) -> Vec<Option<T>> {
     let alpha = c::<T>(2.0) / (tn::<T>(n) + T::one());
     let two = c::<T>(2.0);
     let k0 = (T::one() - alpha / two).powi(2);
     let k1 = two * (T::one() - alpha);
     let k2 = (T::one() - alpha).powi(2);
+    let need = n.max(6);
     let mut out: Vec<Option<T>> = Vec::with_capacity(xs.len());
     let (mut c1, mut c2) = (T::zero(), T::zero());
     for t in 0..xs.len() {
-        if t + 1 < n {
+        if t + 1 < need {
             out.push(Some(T::zero()));
             continue;
         }
-        let w = &xs[t + 1 - n..=t];
-        let s = |i: isize| -> T {
-            if i < 3 {
-                T::zero()
-            } else {
-                let i = i as usize;
-                (w[i] + two * w[i - 1] + two * w[i - 2] + w[i - 3]) / c::<T>(6.0)
-            }
+        let s = |lag: usize| -> T {
+            let i = t - lag;
+            (xs[i] + two * xs[i - 1] + two * xs[i - 2] + xs[i - 3]) / c::<T>(6.0)
         };
-        let last = n as isize - 1;
-        let cc = k0 * (s(last) - two * s(last - 1) + s(last - 2)) + k1 * c1 - k2 * c2;
+        let cc = k0 * (s(0) - two * s(1) + s(2)) + k1 * c1 - k2 * c2;
         c2 = c1;
         c1 = cc;
         out.push(Some(cc));
